@@ -291,7 +291,10 @@ def compare(c, af, lines, printed, want_addr, mf=None):
             # what went over the wire against the joined Lean models: the operation object of DDV.Gen.OpSem run through
             # the protocol of DDV.Proto (size, reset / zero bytes, buffer lengths), at the address the definition gives
             op = mops.get(tuple(ln.get("leaf_pos") or ()))
-            if op and len(logs) == 1:
+            # (accessors are matched by position; when the model has another kind of accessor there, the facts comparison
+            # reports the difference - nothing to compare here)
+            fits = op and (("size_bits" in op) if ln["action"] in ("write", "wzero", "read") else ("size_in" in op) if ln["action"] == "dispatch" else False)
+            if fits and len(logs) == 1:
                 exp = wire_expected(ln["action"], op, inst["address"])
                 if exp is not None and logs[0] != exp:
                     bad.append((f"{ln['action']} put `{logs[0]}` on the wire, the Lean models of the accessor and the operation give `{exp}`", ln["chain"]))
